@@ -53,21 +53,62 @@ def isFn : Declr → Bool
   | _ => false
 
 def isPtr : Declr → Bool
-  | .ptr _ => true
+  | .ptr _ _ => true
   | _ => false
 
 /-- C11 6.7.6.3p1: no function returning a function or an array (`D(void)[n]`, `D(void)(void)`; with parentheses in
     between - `(D(void))[n]` - chibicc parses what the grammar says, so only the direct adjacency is excluded) -/
 def valid : Declr → Bool
   | .name => true
-  | .ptr d => valid d
+  | .ptr d _ => valid d
   | .paren d => valid d
   | .arr d _ => valid d && !isFn d
   | .fn d => valid d && !isFn d
 
-theorem declaratorT_star (f : Nat) (ts : List DTok) (ty : Ty) :
-    declaratorT (f + 1) (.star :: ts) ty = declaratorT (f + 1) ts (pointerTo ty) := by
-  simp [declaratorT, pointersT]
+/-- the rest does not start with a qualifier -/
+def noQual : List DTok → Bool
+  | .qual _ :: _ => false
+  | _ => true
+
+/-- the qualifier loop consumes a whole qualifier list, whatever its order and length -/
+theorem qualsT_quals (qs : List PQual) (ts : List DTok) (ty : Ty) :
+    qualsT (qs.map .qual ++ ts) ty = qualsT ts (applyQuals qs ty) := by
+  induction qs generalizing ty with
+  | nil => rfl
+  | cons q qs ih => simp [qualsT, applyQuals, ih]
+
+/-- where no qualifier follows, leaving the qualifier loop is `pointers` from its beginning -/
+theorem qualsT_noQual {ts : List DTok} (h : noQual ts = true) (ty : Ty) : qualsT ts ty = pointersT ts ty := by
+  cases ts with
+  | nil => rfl
+  | cons t r => cases t <;> simp [noQual] at h <;> rfl
+
+theorem pointersT_star (qs : List PQual) {ts : List DTok} (h : noQual ts = true) (ty : Ty) :
+    pointersT (.star :: (qs.map .qual ++ ts)) ty = pointersT ts (applyQuals qs (pointerTo ty)) := by
+  show qualsT (qs.map .qual ++ ts) (pointerTo ty) = _
+  rw [qualsT_quals, qualsT_noQual h]
+
+theorem declaratorT_star (f : Nat) (qs : List PQual) {ts : List DTok} (h : noQual ts = true) (ty : Ty) :
+    declaratorT (f + 1) (.star :: (qs.map .qual ++ ts)) ty = declaratorT (f + 1) ts (applyQuals qs (pointerTo ty)) := by
+  simp only [declaratorT]
+  rw [pointersT_star qs h]
+
+/-- the tokens of a declarator never begin with a qualifier -/
+theorem noQual_toks (d : Declr) : ∀ rest : List DTok, noQual (toks d ++ rest) = true := by
+  induction d with
+  | name => intro rest; rfl
+  | ptr d qs _ => intro rest; rfl
+  | paren d _ => intro rest; rfl
+  | arr d n ih =>
+    intro rest
+    cases d with
+    | ptr d' qs' => rfl
+    | _ => all_goals (simp only [toks, List.append_assoc] at ih ⊢; exact ih _)
+  | fn d ih =>
+    intro rest
+    cases d with
+    | ptr d' qs' => rfl
+    | _ => all_goals (simp only [toks, List.append_assoc] at ih ⊢; exact ih _)
 
 theorem declaratorT_ident (f : Nat) (after : List DTok) (ty : Ty) :
     declaratorT (f + 1) (.ident :: after) ty = typeSuffixT f after ty := by
@@ -120,7 +161,7 @@ theorem B_paren {d : Declr} (hA : A d) : B (.paren d) := by
 /-- the direct declarator in front of a suffix: `d` itself, or `( d )` when `d` is a pointer declarator -/
 def directToks (d : Declr) : List DTok :=
   match d with
-  | .ptr _ => .lp :: toks d ++ [.rp]
+  | .ptr _ _ => .lp :: toks d ++ [.rp]
   | _ => toks d
 
 theorem toks_arr (d : Declr) (n : Nat) : toks (.arr d n) = directToks d ++ [.lb, .num n, .rb] := by
@@ -155,14 +196,15 @@ theorem AB : ∀ d : Declr, valid d = true → A d ∧ (isPtr d = false → B d)
     have ih := AB d (by simpa [valid] using hv)
     have hb := B_paren ih.1
     exact ⟨A_of_B hb, fun _ => hb⟩
-  | .ptr d, hv => by
+  | .ptr d qs, hv => by
     have ih := AB d (by simpa [valid] using hv)
     obtain ⟨F, h⟩ := ih.1
     refine ⟨⟨F + 1, ?_⟩, fun hc => by simp [isPtr] at hc⟩
     intro ty rest fuel hr hf
     obtain ⟨f, rfl⟩ : ∃ f, fuel = f + 1 := ⟨fuel - 1, by omega⟩
-    simp only [toks, List.cons_append, declaratorT_star]
-    simpa [Declr.apply] using h (pointerTo ty) rest (f + 1) hr (by omega)
+    simp only [toks, List.cons_append, List.append_assoc]
+    rw [declaratorT_star f qs (noQual_toks d rest)]
+    simpa [Declr.apply] using h (applyQuals qs (pointerTo ty)) rest (f + 1) hr (by omega)
   | .arr d n, hv => by
     simp [valid] at hv
     have ih := AB d hv.1
